@@ -55,6 +55,10 @@ def run(ctx: Ctx) -> Result:
                 for j in sc["jobs"][len(sc["jobs"]) // 2:]:
                     j["at"] = d * rng.randint(1, 3) if d else 0
                 sc["stop_at"] = sum(j["dur"] for j in sc["jobs"]) + max(j["at"] for j in sc["jobs"]) + 2 * S
+    for sc in scs:
+        if sc.get("pause_round_trip") and sc.get("stop_at") is not None:
+            # the stop must come after the work is done: every job may cost a pause and an un-pause round trip
+            sc["stop_at"] += int(2 * sc["pause_round_trip"] * 1_000_000) * (len(sc["jobs"]) + 1)
     c10.run_scenarios(ctx, res, scs, "c09", extra_oracle=extra)
     return res
 
